@@ -48,6 +48,10 @@ pub struct Plan {
     /// `Pending` in between, so a write future that loses its progress shows on the wire
     #[serde(default)]
     pub raw_stream_window: u64,
+    /// the raw peer does not offer QUIC datagrams (no max_datagram_frame_size transport
+    /// parameter): what the endpoint announces in its SETTINGS does not depend on the peer
+    #[serde(default)]
+    pub raw_no_datagrams: bool,
     /// 0: the run ends with the session open. Otherwise the raw peer ends the session at the
     /// end - 1: close capsule with `end_code`, 2: clean FIN of the CONNECT stream - and the
     /// code of the endpoint's CONNECTION_CLOSE is checked (H3_NO_ERROR, whatever the session code)
@@ -88,7 +92,7 @@ pub fn gen_plan(seed: u64, index: usize, tier: Tier) -> Plan {
         .collect();
     let decision = if server_under_test && rng.chance_pm(300) { base.decision.clone() } else { c02::Decision::Accept };
     let raw_stream_window = if rng.chance_pm(350) { *rng.pick(&[1u64, 3, 8, 16, 24, 32, 48, 100, 700]) } else { 0 };
-    Plan { seed, rt: RtKnobs::from_rng(&mut rng), net, server_under_test, path: if base.path.is_empty() { "/".into() } else { base.path }, query: base.query, headers: base.headers, decision, burn, ops, raw_stream_window, end_style: if rng.chance_pm(400) { rng.range(1, 2) as u8 } else { 0 }, end_code: *rng.pick(&[0u32, 1, 0x100, 0x10a, 0x10c, 0x1234_5678, u32::MAX]) }
+    Plan { seed, rt: RtKnobs::from_rng(&mut rng), net, server_under_test, path: if base.path.is_empty() { "/".into() } else { base.path }, query: base.query, headers: base.headers, decision, burn, ops, raw_stream_window, raw_no_datagrams: rng.chance_pm(200), end_style: if rng.chance_pm(400) { rng.range(1, 2) as u8 } else { 0 }, end_code: *rng.pick(&[0u32, 1, 0x100, 0x10a, 0x10c, 0x1234_5678, u32::MAX]) }
 }
 
 /// The raw peer ends the session (capsule or FIN) and reports how the endpoint closed QUIC.
@@ -428,6 +432,9 @@ pub fn execute(plan: &Plan, trace: bool) -> Exec {
             if plan.raw_stream_window > 0 {
                 t.stream_receive_window(quinn::VarInt::from_u64(plan.raw_stream_window).unwrap());
             }
+            if plan.raw_no_datagrams {
+                t.datagram_receive_buffer_size(None);
+            }
             t
         };
         if plan.server_under_test {
@@ -564,6 +571,7 @@ pub fn execute(plan: &Plan, trace: bool) -> Exec {
             ex.nontrivial = true;
             ex.probe("uni_streams_decoded", w.rec.uni.len() as u64);
             ex.fault("tiny_peer_stream_window_runs", (plan.raw_stream_window > 0) as u64);
+            ex.fault("peer_without_quic_datagrams_runs", plan.raw_no_datagrams as u64);
             ex.probe("bidi_streams_decoded", w.rec.bidi.len() as u64);
             ex.probe("datagrams_decoded", w.rec.datagrams.len() as u64);
             ex.probe("session_id_varint_bytes", rc::varint_len(w.session_id) as u64);
@@ -613,7 +621,7 @@ pub fn def() -> PropertyDef {
     PropertyDef {
         id: "C16",
         scenarios: vec![Box::new(Typed(C16Raw))],
-        rule: "Each run: the endpoint under test (server on even indexes, client on odd) talks to the scripted raw peer, which records every unidirectional stream, every bidirectional stream the endpoint opens, its half of the CONNECT stream and every datagram, and decodes them with the independent reference codec. Client under test: URL path / query / 0-8 additional headers from C02's generator. Server under test: every response variant (accept, accept_with_headers, 403, 404, 429) and session ids needing 1-, 2- (quick) and 4-byte (thorough) varints, obtained by burning stream ids. The application opens 0-6 uni / bidi streams with payloads of 0..1100 B and sends datagrams. Oracle: exactly one control stream, never closed, whose first frame is one SETTINGS (shortest-form varints, no reserved or duplicated ids, ENABLE_CONNECT_PROTOCOL = H3_DATAGRAM = ENABLE_WEBTRANSPORT = 1, QPACK table capacity and blocked streams 0) followed by nothing but GREASE; every other uni stream is 0x54 + the session id in shortest form + exactly the payload; every application bidi stream is 0x41 + session id + payload; every datagram is the shortest-form quarter stream id + payload; the CONNECT field section has Required Insert Count 0 / Base 0, only static or literal representations, valid Huffman, pseudo-headers first and lower-case names, and equals exactly the expected request (five pseudo-headers + additional fields) or response (:status of the decision + extras). Error codes on the wire are compared with registry constants under C12; here, in 40% of the runs the raw peer finally ends the session (close capsule with session codes such as 0x10a or 0xffffffff, or clean FIN) and the endpoint's CONNECTION_CLOSE must carry H3_NO_ERROR; in a third of the server runs two unacceptable requests (a GET, a CONNECT without :protocol) precede the real one and must be refused with exactly H3_REQUEST_REJECTED (0x10b) and H3_MESSAGE_ERROR (0x10e). Every run is non-trivial; distinct = distinct plan hashes.",
+        rule: "Each run: the endpoint under test (server on even indexes, client on odd) talks to the scripted raw peer, which records every unidirectional stream, every bidirectional stream the endpoint opens, its half of the CONNECT stream and every datagram, and decodes them with the independent reference codec. Client under test: URL path / query / 0-8 additional headers from C02's generator. Server under test: every response variant (accept, accept_with_headers, 403, 404, 429) and session ids needing 1-, 2- (quick) and 4-byte (thorough) varints, obtained by burning stream ids. The application opens 0-6 uni / bidi streams with payloads of 0..1100 B and sends datagrams; in a fifth of the runs the raw peer does not offer QUIC datagrams at all (the SETTINGS the endpoint sends must be the same). Oracle: exactly one control stream, never closed, whose first frame is one SETTINGS (shortest-form varints, no reserved or duplicated ids, ENABLE_CONNECT_PROTOCOL = H3_DATAGRAM = ENABLE_WEBTRANSPORT = 1, QPACK table capacity and blocked streams 0) followed by nothing but GREASE; every other uni stream is 0x54 + the session id in shortest form + exactly the payload; every application bidi stream is 0x41 + session id + payload; every datagram is the shortest-form quarter stream id + payload; the CONNECT field section has Required Insert Count 0 / Base 0, only static or literal representations, valid Huffman, pseudo-headers first and lower-case names, and equals exactly the expected request (five pseudo-headers + additional fields) or response (:status of the decision + extras). Error codes on the wire are compared with registry constants under C12; here, in 40% of the runs the raw peer finally ends the session (close capsule with session codes such as 0x10a or 0xffffffff, or clean FIN) and the endpoint's CONNECTION_CLOSE must carry H3_NO_ERROR; in a third of the server runs two unacceptable requests (a GET, a CONNECT without :protocol) precede the real one and must be refused with exactly H3_REQUEST_REJECTED (0x10b) and H3_MESSAGE_ERROR (0x10e). Every run is non-trivial; distinct = distinct plan hashes.",
         assumptions: vec![
             "the reference codec is validated against RFC 9000 / 7541 / 9204 worked examples at start-up; its Huffman code table (public data of RFC 7541 Appendix B) was extracted from the httlib-huffman crate's data file and checked to be a complete prefix code",
             "8-byte session ids are out of reach in situ; current-thread runtime; fault-free network",
